@@ -299,6 +299,15 @@ SPECS += [
     operator('__rshift__', 'successors', 'src_set_successors', 'src_op_rshift'),
 ]
 
+# ---- WBS.__getitem__ (wbs.py): wbs[id] - the first member with that id in WBS order, RuntimeError when there is none ----
+SPECS += [
+    dict(file='wbs.py', cls='WBS', func='__getitem__', coq_name='src_wbs_getitem', heap='h', obj_attrs=ATTRS_ID,
+         fields={'self.__root': ('root', 'obj')},
+         obj_props={'all_children': ('src_all_children fuel h', OBJS, True)},
+         params={'task_id': ('task_id', 'Z')},
+         signature=[('fuel', 'nat'), ('h', 'heap'), ('root', 'obj'), ('task_id', 'Z')], ret='obj'),
+]
+
 # ---- the same thirteen writers once more, with `raise` as a value: `Ok (heap at the raise, None)` instead of `Err` --------
 # (what a rejected call leaves behind: C15).  A call of a translated setter inside a facade goes to the setter's own
 # variant; read-only callees that raise (`__check_no_links_with`, `_check_not_none`) reject with the heap of the statement.
@@ -365,13 +374,18 @@ def emit(repo):
             problems += check_asserts(f.read(), WBS_ASSERTS, 'wbs.py')
     except (OSError, SyntaxError) as e:
         problems.append('wbs.py: %s' % e)
+    sources = {'task.py': src}
     for sp in SPECS:
         try:
+            fname = sp.get('file', 'task.py')
+            if fname not in sources:
+                with open(os.path.join(repo, 'src', 'pjplan', fname), encoding='utf-8') as f:
+                    sources[fname] = f.read()
             where = '%s%s%s' % ((sp['cls'] + '.') if sp.get('cls') else '', (sp['nested_in'] + '.') if sp.get('nested_in') else '', sp['func'])
-            texts.append('(* task.py: %s *)\n' % where)
-            texts.append(pylite.translate(src, sp, OPS) + '\n')
-        except (pylite.Unsupported, SyntaxError) as e:
-            problems.append('task.py %s.%s: %s' % (sp.get('cls'), sp['func'], e))
+            texts.append('(* %s: %s *)\n' % (fname, where))
+            texts.append(pylite.translate(sources[fname], sp, OPS) + '\n')
+        except (pylite.Unsupported, SyntaxError, OSError) as e:
+            problems.append('%s %s.%s: %s' % (sp.get('file', 'task.py'), sp.get('cls'), sp['func'], e))
     return ''.join(texts), problems
 
 
